@@ -1,5 +1,6 @@
 """C09 — encapsulation calls are total and failure-atomic."""
 from framework import *
+FLOOR_R1 = 900        # basic blocks interpreted (about a third of what the pinned tree gives)
 
 WRITERS = ['encap', 'encap_frag', 'encap_ext']
 ENCCFG = {'decline_loop_obligations_in': {ENC + 'encap_ext'}}
@@ -73,7 +74,7 @@ def run(ck):
     n = 0
     for name, a in an.items():
         n += ck.count_obligations(a.obligations(), 'C09.R1')
-    ck.rule('C09.R1 panic-freedom of encap, encap_frag, encap_ext and both previews', n, 100)
+    ck.panic_rule('C09.R1 panic-freedom of encap, encap_frag, encap_ext and both previews', n, list(an.values()), FLOOR_R1)
     # ---- R2 / R3 / R4 at the returns
     n_err = n_ok = 0
     for wname in WRITERS:
